@@ -31,7 +31,8 @@ Emits(a, b) ==
          /\ EmitCase("ff.inj0", P, [a |-> a, b |-> b]) /\ EmitCase("ff.inj1", P, [a |-> a, b |-> b])
          /\ EmitCase("ff.twist", P, [a |-> a, b |-> b]) /\ EmitCase("ff.transpose", P, [a |-> a, b |-> b])
          /\ \A x \in 0 .. 2 : EmitCase("ff.constant", P, [a |-> a, x |-> x, b |-> b])
-         /\ (b = 0 => EmitCase("ff.identity", P, [n |-> a]) /\ EmitCase("ff.initial", P, [a |-> a]) /\ EmitCase("ff.terminal", P, [a |-> a]))
+         /\ (b = 0 => EmitCase("ff.identity", P, [n |-> a]) /\ EmitCase("ff.initial", P, [a |-> a]) /\ EmitCase("ff.terminal", P, [a |-> a])
+                      /\ EmitCase("ff.initial_object", P, [u |-> 0]) /\ EmitCase("ff.unit", P, [u |-> 0]))
     [] kind = "raw" -> EmitCase("ff.new", <<"C06", "C05">>, [table |-> a, target |-> b])
     [] kind = "univ" -> /\ EmitCase("ff.universal_labels", P, [q |-> a, h |-> b])
                         \* semifinite functions and the category of finite / semifinite arrows
